@@ -121,6 +121,17 @@ func UpdatePartialFromConfig(cfg *Config, updates map[string]any) (UpdateStatus,
 		return UpdateStatusFailed, fmt.Errorf("%w: %v", ErrUpdateFailed, err)
 	}
 
+	// Verified before anything is committed: a value the proxy cannot run under must never be in
+	// force, not even for the moment between a commit and its rollback (a component woken up by
+	// the notification of an earlier update reads whatever is committed at that moment).
+	if err := cfg.verify(); err != nil {
+		slog.Error("Updated config failed verification", "error", err)
+		for _, prop := range stagedProps {
+			prop.DiscardStaged()
+		}
+		return UpdateStatusFailed, fmt.Errorf("%w: %v", ErrUpdateFailed, err)
+	}
+
 	slog.Info("Committing updated properties...", "staged_count", len(stagedProps))
 	for _, prop := range stagedProps {
 		slog.Debug("Committing property...", "prop", prop)
@@ -134,12 +145,6 @@ func UpdatePartialFromConfig(cfg *Config, updates map[string]any) (UpdateStatus,
 		for _, prop := range stagedProps {
 			prop.NotifyRolledBack()
 		}
-	}
-
-	if err := cfg.verify(); err != nil {
-		slog.Error("Updated config failed verification", "error", err)
-		rollback()
-		return UpdateStatusFailed, fmt.Errorf("%w: %v", ErrUpdateFailed, err)
 	}
 
 	if err := cfg.verifyStored(); err != nil {
